@@ -173,6 +173,7 @@ def well_bracketed(seq, inside0=False):
 
 def judge(chk, seq, recs, mres):
     disk = 0
+    diverged = False
     write_ctx = False        # harness-side reference of "inside a context entered after allow_write"
     allowed = False
     inside = False
@@ -206,10 +207,10 @@ def judge(chk, seq, recs, mres):
             diff = "handler state %d, Access.a_step says %d" % (hcode, mh)
         elif ins != mins:
             diff = "_inside_context=%r, Access.a_step says %r" % (ins, mins)
-        if diff:
+        if diff and not diverged:
             chk.violation("C08: correspondence broken at %s: %s [after %r]" % (name, diff, seq[:j]),
                           dict(what, correspondence="coq/Model/Access.v a_step"), False)
-            return
+            diverged = True         # keep judging the rest of the sequence with the oracle alone
         # reference bookkeeping (independent of the model: straight from the property text)
         if name == "allow_write":
             allowed = True
@@ -290,7 +291,7 @@ def run(chk):
                 if rec[0] in MUTATORS:
                     chk.count("mutator %s" % ("raised" if rec[1] else "changed" if rec[2] else "no-op"))
             judge(chk, s, recs, m[1])
-            if len(chk.violations) >= 4:
+            if chk.n_found() >= 3:
                 return
 
 
